@@ -47,13 +47,27 @@ impl C07 {
         for v in q.values_mut() {
             v.sort();
         }
-        if c.post.history != c.post.raw_history {
-            out.violation(P, "queries_faithful", format!("AllHistory answers differ from the stored history: {:?} vs {:?}", c.post.history.iter().filter(|h| !c.post.raw_history.contains(h)).collect::<Vec<_>>(), c.post.raw_history.iter().filter(|h| !c.post.history.contains(h)).collect::<Vec<_>>()));
-            return;
+        // judged only when the raw decoders recognise the storage layout (every entry under the known prefixes
+        // decodes, and the prefixes are not empty while the queries report entries)
+        match &c.post.raw_history {
+            Some(raw) if !(raw.is_empty() && !c.post.history.is_empty()) => {
+                out.count("c07.history_checked_against_storage");
+                if &c.post.history != raw {
+                    out.violation(P, "queries_faithful", format!("AllHistory answers differ from the stored history: {:?} vs {:?}", c.post.history.iter().filter(|h| !raw.contains(h)).collect::<Vec<_>>(), raw.iter().filter(|h| !c.post.history.contains(h)).collect::<Vec<_>>()));
+                    return;
+                }
+            }
+            _ => out.count("c07.raw_layout_unrecognised"),
         }
-        if q != c.post.raw_requests {
-            out.violation(P, "queries_faithful", format!("UnbondRequests answers {:?} differ from the stored wait list {:?}", q, c.post.raw_requests));
-            return;
+        match &c.post.raw_requests {
+            Some(raw) if !(raw.is_empty() && !q.is_empty()) => {
+                out.count("c07.requests_checked_against_storage");
+                if &q != raw {
+                    out.violation(P, "queries_faithful", format!("UnbondRequests answers {:?} differ from the stored wait list {:?}", q, raw));
+                    return;
+                }
+            }
+            _ => out.count("c07.raw_layout_unrecognised"),
         }
         // per batch sums
         let mut sums: BTreeMap<u64, (u128, u128)> = BTreeMap::new();
